@@ -82,6 +82,78 @@ Theorem slot_never_before_reference_block :
 Proof. exact Proofs.C47.slot_not_before_reference. Qed.
 Print Assumptions slot_never_before_reference_block.
 
+(* ---------------- no action before the DOCUMENTED slot of the seat ---------------- *)
+(* doc_slot is "reference + (index - 1) * step" (relay entry: + queue position * step) in
+   unbounded arithmetic.  The model computes like Go — `memberIndex-1` in uint8, the product and
+   the sums in uint64, the pkg/tbtc steps from the generated constants — and for EVERY seat
+   1..255 (group.MemberIndex is a uint8; the tBTC group has 100 seats, the beacon group 64)
+   nothing wraps: the slot the code waits for is the documented one. *)
+Theorem slot_is_documented_slot :
+  forall p m, params_ok p = true -> member_ok p m = true -> slot p m = doc_slot p m.
+Proof. exact Proofs.C47.slot_eq_doc. Qed.
+Print Assumptions slot_is_documented_slot.
+
+(* slots grow strictly with the seat (one delay step per seat): beacon DKG result, tBTC DKG
+   result, inactivity claim, and result approval among the non-submitters *)
+Theorem slot_monotone_in_index :
+  forall p a b,
+    params_ok p = true -> member_ok p a = true -> member_ok p b = true ->
+    p_kind p <> KRelay ->
+    (p_kind p = KApproval -> a <> p_submitter p /\ b <> p_submitter p) ->
+    a < b -> slot p a < slot p b.
+Proof. exact Proofs.C47.slot_monotone. Qed.
+Print Assumptions slot_monotone_in_index.
+
+Theorem slot_spacing_is_one_step_per_seat :
+  forall p a b,
+    p_kind p <> KRelay ->
+    (p_kind p = KApproval -> a <> p_submitter p /\ b <> p_submitter p) ->
+    doc_slot p b - doc_slot p a =
+    (b - a) * match p_kind p with
+              | KBeaconDkg => p_step p
+              | KRelay => 0
+              | KTbtcDkg => dkgResultSubmissionDelayStepBlocks
+              | KApproval => dkgResultApprovalDelayStepBlocks
+              | KInactivity => inactivityClaimSubmissionDelayStepBlocks
+              end.
+Proof. exact Proofs.C47.doc_slot_step. Qed.
+Print Assumptions slot_spacing_is_one_step_per_seat.
+
+(* relay entry: slots grow with the position in the submission queue *)
+Theorem relay_slot_monotone_in_queue_index :
+  forall p a b,
+    params_ok p = true -> p_kind p = KRelay -> member_ok p a = true -> member_ok p b = true ->
+    doc_queue_index a (p_entry p mod p_n p) (p_n p) < doc_queue_index b (p_entry p mod p_n p) (p_n p) ->
+    slot p a < slot p b.
+Proof. exact Proofs.C47.relay_slot_monotone. Qed.
+Print Assumptions relay_slot_monotone_in_queue_index.
+
+(* the result submitter approves first *)
+Theorem approval_submitter_slot_is_first :
+  forall p m,
+    params_ok p = true -> p_kind p = KApproval -> member_ok p m = true ->
+    slot p (p_submitter p) <= slot p m.
+Proof. exact Proofs.C47.approval_submitter_first. Qed.
+Print Assumptions approval_submitter_slot_is_first.
+
+(* for EVERY history: when the member acts, it acts at a chain head that is at or after the
+   documented slot of its seat *)
+Theorem no_action_before_slot :
+  forall p m pre h s i b ex,
+    params_ok p = true -> member_ok p m = true ->
+    run p m pre h = (s, (Some (i, b), ex)) ->
+    s = Some (doc_slot p m) /\ nth_error h i = Some (Head b) /\ doc_slot p m <= b.
+Proof. exact Proofs.C47.no_action_before_doc_slot. Qed.
+Print Assumptions no_action_before_slot.
+
+(* why the type of the multiplication matters: carried out in the uint8 member index type the
+   approval delay of a seat of a 100-seat group falls below the documented one *)
+Theorem delay_multiplied_in_uint8_is_early :
+  exists m, 1 <= m <= 100 /\
+    u64 (u8 ((m - 1) * dkgResultApprovalDelayStepBlocks)) < (m - 1) * dkgResultApprovalDelayStepBlocks.
+Proof. exact Proofs.C47.uint8_delay_is_early. Qed.
+Print Assumptions delay_multiplied_in_uint8_is_early.
+
 (* ---------------- relay entry slots and the relay entry timeout ---------------- *)
 (* The property demands: every relay-entry slot is strictly before start + RelayEntryTimeout,
    with RelayEntryTimeout = groupSize * step as both chain handles configure it:
@@ -190,15 +262,16 @@ Theorem slots_ok_sound :
        nth_error l i = Some (a, sa) -> nth_error l j = Some (b, sb) ->
        sa <> sb \/ may_share p a b = true) /\
     (forall m s, In (m, s) l ->
-       earliest p <= s /\ (p_kind p = KRelay -> s < p_ref p + p_timeout p)).
+       earliest p <= s /\ doc_slot p m <= s /\
+       (p_kind p = KRelay -> s < p_ref p + p_timeout p)).
 Proof. exact Proofs.C47.slots_ok_sound. Qed.
 Print Assumptions slots_ok_sound.
 
 Theorem run_ok_sound :
-  forall p pre h s i b ex,
-    run_ok p pre h {| o_slot := s; o_submit := Some (i, b); o_exit := ex |} = true ->
+  forall p m pre h s i b ex,
+    run_ok p m pre h {| o_slot := s; o_submit := Some (i, b); o_exit := ex |} = true ->
     (pre && has_precheck (p_kind p) = false) /\
-    exists s', s = Some s' /\ nth_error h i = Some (Head b) /\ s' <= b /\
+    exists s', s = Some s' /\ nth_error h i = Some (Head b) /\ s' <= b /\ doc_slot p m <= b /\
                forall j e, (j < i)%nat -> nth_error h j = Some e -> is_terminal e = false.
 Proof. exact Proofs.C47.run_ok_sound. Qed.
 Print Assumptions run_ok_sound.
@@ -214,8 +287,9 @@ Print Assumptions model_slots_pass_spec.
 
 Theorem model_runs_pass_spec :
   forall p m pre h,
+    params_ok p = true -> member_ok p m = true ->
     (p_kind p <> KRelay -> no_timeout h = true) ->
     let '(s, (sub, ex)) := run p m pre h in
-    run_ok p pre h {| o_slot := s; o_submit := sub; o_exit := ex |} = true.
+    run_ok p m pre h {| o_slot := s; o_submit := sub; o_exit := ex |} = true.
 Proof. exact Proofs.C47.run_ok_model. Qed.
 Print Assumptions model_runs_pass_spec.
